@@ -187,6 +187,8 @@ class Normaliser:
                 return v
             if isinstance(v, ast.AST):
                 return self.norm(v, {k: w for k, w in env.items() if '.' in k})
+            if isinstance(v, str):
+                return Poly.atom(v)
             c = self._const(e)
             if c is not None:
                 return Poly.const(c)
@@ -257,6 +259,17 @@ class Normaliser:
             if isinstance(e.func, ast.Name) and e.func.id in ('int', 'byte2int') and len(e.args) == 1:
                 try:
                     return self.norm(e.args[0], env)
+                except NotInt:
+                    pass
+            if isinstance(e.func, ast.Name) and e.func.id == 'sum' and len(e.args) == 1 and \
+                    isinstance(e.args[0], (ast.GeneratorExp, ast.ListComp)) and len(e.args[0].generators) == 1 and \
+                    isinstance(e.args[0].generators[0].target, ast.Name) and not e.args[0].generators[0].ifs:
+                g = e.args[0].generators[0]
+                env2 = dict(env)
+                env2[g.target.id] = ast.Name(id='_e', ctx=ast.Load())
+                try:
+                    inner = self.norm(e.args[0].elt, env2)
+                    return Poly.atom('sum(%s for _e in %s)' % (inner, self.canon(g.iter, env)))
                 except NotInt:
                     pass
             return Poly.atom(self.canon(e, env))
